@@ -136,7 +136,7 @@ def explore(fn, timeout_s=120.0, per_path_timeout=40.0, required_tags=(), stop_o
                     with ResumedTracing():
                         space.detach_path(exc)
                     cex = deep_realize(dict(pre_args.arguments))
-                    fail = (text + "\n" + "".join(tb.format()[-6:]), cex)
+                    fail = [text + "\n" + "".join(tb.format()[-6:]), cex]
                     status = VerificationStatus.REFUTED
                 else:
                     with ResumedTracing():
@@ -149,7 +149,7 @@ def explore(fn, timeout_s=120.0, per_path_timeout=40.0, required_tags=(), stop_o
                         with ResumedTracing():
                             space.detach_path()
                         cex = deep_realize(dict(pre_args.arguments))
-                        fail = (repr(ret), cex)
+                        fail = [repr(ret), cex]
                         status = VerificationStatus.REFUTED
             except IgnoreAttempt:
                 status = None
